@@ -382,6 +382,38 @@ def filename_rules(repo):
     return vals.get('replace_filename_chars'), vals.get('valid_filename_chars'), body == expect, name_branch
 
 
+def unit_constants(repo):
+    """unit_conv_US / unit_conv_SI literals of DHLLDV_viewer/unit_conv.py as exact decimal strings / rational expressions"""
+    src = open(os.path.join(repo, 'DHLLDV_viewer/unit_conv.py')).read()
+    tree = ast.parse(src)
+    out = {}
+
+    def lean_expr(n):
+        if isinstance(n, ast.Constant) and isinstance(n.value, (int, float)):
+            r = repr(n.value)
+            if 'e' in r or 'inf' in r or 'nan' in r:
+                raise SystemExit('effects: unit constant literal ' + r)
+            if r.startswith('.'):
+                r = '0' + r
+            return f'({r} : Rat)'
+        if isinstance(n, ast.BinOp):
+            op = {ast.Add: '+', ast.Sub: '-', ast.Mult: '*', ast.Div: '/'}.get(type(n.op))
+            if op:
+                return f'({lean_expr(n.left)} {op} {lean_expr(n.right)})'
+            if isinstance(n.op, ast.Pow) and isinstance(n.right, ast.Constant) and isinstance(n.right.value, int):
+                return f'({lean_expr(n.left)} ^ {n.right.value})'
+        raise SystemExit('effects: cannot read unit constant ' + ast.unparse(n))
+    for node in tree.body:
+        if isinstance(node, ast.Assign) and isinstance(node.targets[0], ast.Name) and node.targets[0].id == 'unit_conv_US':
+            for k, v in zip(node.value.keys, node.value.values):
+                out['US_' + ast.literal_eval(k).replace(' ', '_')] = lean_expr(v)
+        if isinstance(node, ast.Assign) and isinstance(node.targets[0], ast.Subscript) and ast.unparse(node.targets[0].value) == 'unit_conv_SI':
+            key = ast.literal_eval(node.targets[0].slice)
+            if isinstance(node.value, (ast.Constant, ast.BinOp)):
+                out['SI_' + key.replace(' ', '_')] = lean_expr(node.value)
+    return out
+
+
 def lean_str_list(xs):
     return '[' + ', '.join(json.dumps(x) for x in xs) + ']'
 
@@ -426,6 +458,8 @@ def main(repo, outdir):
     lines.append(f'def filenameValid : String := {json.dumps(valid or "")}')
     lines.append(f'def filename_sanitiser_shape_recognised : Bool := {"true" if shape_ok else "false"}')
     lines.append(f'def filename_branch_recognised : Bool := {"true" if branch_ok else "false"}')
+    for k, v in unit_constants(repo).items():
+        lines.append(f'def unit_{k} : Rat := {v}')
     lines.append('')
     lines.append('end Effects')
     text = '\n'.join(lines) + '\n'
